@@ -67,22 +67,24 @@ Theorem C11_maybe_separate_pointer_passes : maybe_separate_pointer_passes_stmt.
 Proof. exact maybe_separate_pointer_passes. Qed.
 
 (* B. the machine: every accepted operation sequence, any checksum function, any configuration, either form of the run-time
-   clean-up rule (chk) — except C11_old_reader_served, which is about the GENERATED rule VLOG_CLEANUP_CHECKS_READERS *)
+   clean-up rule (chk) and of the block-cache rule of VLog::get (hck: a hit is served only when the cached checksum and the
+   value length equal the pointer's) — except C11_old_reader_served (the GENERATED rule VLOG_CLEANUP_CHECKS_READERS) and
+   part D (the GENERATED rule VLOG_CACHE_HIT_CHECKED) *)
 Theorem C11_flush_records_values : forall crc cfg chk, flush_records_values_stmt crc cfg chk.
 Proof. exact flush_records_values. Qed.
-Theorem C11_live_values_intact : forall crc cfg chk, live_values_intact_stmt crc cfg chk.
+Theorem C11_live_values_intact : forall crc cfg chk hck, live_values_intact_stmt crc cfg chk hck.
 Proof. exact live_values_intact. Qed.
 Theorem C11_cleanup_keeps_live_files : cleanup_keeps_live_files_stmt.
 Proof. exact cleanup_keeps_live_files. Qed.
 Theorem C11_cleanup_index_consistent : cleanup_index_consistent_stmt.
 Proof. exact cleanup_index_consistent. Qed.
-Theorem C11_live_pointers_have_files : forall crc cfg chk, live_pointers_have_files_stmt crc cfg chk.
+Theorem C11_live_pointers_have_files : forall crc cfg chk hck, live_pointers_have_files_stmt crc cfg chk hck.
 Proof. exact live_pointers_have_files. Qed.
-Theorem C11_files_synced : forall crc cfg chk, files_synced_stmt crc cfg chk.
+Theorem C11_files_synced : forall crc cfg chk hck, files_synced_stmt crc cfg chk hck.
 Proof. exact files_synced. Qed.
-Theorem C11_ids_never_reused : forall crc cfg chk, ids_never_reused_stmt crc cfg chk.
+Theorem C11_ids_never_reused : forall crc cfg chk hck, ids_never_reused_stmt crc cfg chk hck.
 Proof. exact ids_never_reused. Qed.
-Theorem C11_old_reader_never_wrong : forall crc cfg chk, old_reader_never_wrong_stmt crc cfg chk.
+Theorem C11_old_reader_never_wrong : forall crc cfg chk hck, old_reader_never_wrong_stmt crc cfg chk hck.
 Proof. exact old_reader_never_wrong. Qed.
 (* readers holding an older table set across flushes and compactions are served (repair of C11-N1) *)
 Theorem C11_old_reader_served : old_reader_served_stmt.
@@ -95,17 +97,47 @@ Proof. exact cleanup_deferred_with_readers. Qed.
 (* regression record: the rule BEFORE the repair (no test at the call sites) leaves such a reader unprotected *)
 Theorem C11_old_reader_unprotected_without_check : old_reader_unprotected_without_check_stmt.
 Proof. exact old_reader_unprotected_without_check. Qed.
+(* the block cache stays effective under the checked rule: a cached entry found for a live pointer passes the test *)
+Theorem C11_live_hits_pass : forall crc cfg chk hck, live_hits_pass_stmt crc cfg chk hck.
+Proof. exact live_hits_pass. Qed.
 
-(* the generated rule is the repaired one *)
-Example C11_rule_is_repaired : VLOG_CLEANUP_CHECKS_READERS = true.
-Proof. reflexivity. Qed.
+(* D. the block-cache rule of VLog::get under DAMAGE (repair of F41; the same theorem is Props/C16.v
+   C16_vlog_damaged_reads_checked): for every history of flushes, compactions, reopens, readers, reads, replacements of
+   the value-log directory by ANY files (cut short, appended to again, rewritten) and reads through ANY pointer, at Full
+   verification a read that answers a value answers one of the pointer's value size whose checksum — with some key — is the
+   pointer's: the value written, an error, or an explicit checksum collision; never silently another entry's value *)
+Theorem C11_damaged_reads_checked : damaged_reads_checked_stmt.
+Proof. exact damaged_reads_checked. Qed.
+(* regression record: the rule BEFORE the repair (any hit on (file id, offset) is served) answers the other key's value *)
+Theorem C11_cache_unchecked_serves_other_entry : cache_unchecked_serves_other_entry_stmt.
+Proof. exact cache_unchecked_serves_other_entry. Qed.
+
+(* the generated rules are the repaired ones *)
+Example C11_rule_is_repaired : VLOG_CLEANUP_CHECKS_READERS = true /\ VLOG_CACHE_HIT_CHECKED = true.
+Proof. split; reflexivity. Qed.
 (* the hypotheses are satisfiable, and the three outcomes of the witness run w_ops (flush, flush, reader, compaction):
    without the test file 1 is removed under the reader; with it file 1 stays and the reader's old value resolves; after
    the reader has gone the next flush removes file 1 *)
 Example C11_machine_instance :
-  vs_run w_crc w_cfg false w_ops vs0 = Some w_st /\ map vf_id (vs_files w_st) = [2%N] /\
-  vs_run w_crc w_cfg true w_ops vs0 = Some w_st_chk /\ map vf_id (vs_files w_st_chk) = [1%N; 2%N] /\
-  fst (vs_resolve w_crc w_cfg w_st_chk (te_enc w_e)) = Some [7%N; 7%N; 7%N; 7%N] /\
-  vs_run w_crc w_cfg true w_ops_after vs0 = Some w_st_after /\ map vf_id (vs_files w_st_after) = [2%N; 3%N] /\
+  vs_run w_crc w_cfg false true w_ops vs0 = Some w_st /\ map vf_id (vs_files w_st) = [2%N] /\
+  vs_run w_crc w_cfg true true w_ops vs0 = Some w_st_chk /\ map vf_id (vs_files w_st_chk) = [1%N; 2%N] /\
+  fst (vs_resolve w_crc w_cfg true w_st_chk (te_enc w_e)) = Some [7%N; 7%N; 7%N; 7%N] /\
+  vs_run w_crc w_cfg true true w_ops_after vs0 = Some w_st_after /\ map vf_id (vs_files w_st_after) = [2%N; 3%N] /\
   map (fun t => (tb_id t, tb_oldest t)) (vs_tables w_st_after) = [(12%N, 2%N); (13%N, 3%N)].
 Proof. vm_compute. repeat split. Qed.
+(* the history of F41 in the model (x_ds: flush k0 k1, file 1 cut to its header, reopen, flush k2 at the cut position, read
+   k2, then the OLD pointer x_p0 of k0 — same file, same offset, same sizes as the new pointer x_p2, another checksum):
+   the hypotheses of part D are satisfiable (a damaged history, Full verification, pointers issued for what was written);
+   the machine before the repair answers k2's value for k0's pointer, the repaired machine refuses it (the file path
+   reports the checksum mismatch) and still serves k2 from the cache *)
+Example C11_cut_instance :
+  cf_level x_cfg = VLOG_CK_FULL /\
+  ds_run x_crc x_cfg true false x_ds vs0 = Some x_st_old /\ ds_run x_crc x_cfg true true x_ds vs0 = Some x_st_new /\
+  issued_for x_crc x_p0 x_k0 [7%N; 7%N; 7%N] /\ issued_for x_crc x_p2 x_k2 [9%N; 9%N; 9%N] /\
+  (vpt_file x_p0, vpt_offset x_p0, vpt_ksize x_p0, vpt_vsize x_p0) = (vpt_file x_p2, vpt_offset x_p2, vpt_ksize x_p2, vpt_vsize x_p2) /\
+  vpt_crc x_p0 <> vpt_crc x_p2 /\
+  fst (vs_get x_crc x_cfg false x_st_old x_p0) = Some [9%N; 9%N; 9%N] /\
+  fst (vs_get x_crc x_cfg true x_st_new x_p0) = None /\
+  vs_get x_crc x_cfg true x_st_new x_p2 = (Some [9%N; 9%N; 9%N], vs_cache x_st_new) /\
+  vs_cache x_st_new <> [].
+Proof. vm_compute. repeat split; discriminate. Qed.
